@@ -4,7 +4,10 @@ use crate::framework::*;
 use serde_json::json;
 
 pub fn build(tier: Tier) -> CheckDef {
-    let spaces: Vec<Box<dyn Space>> = vec![Box::new(StreamSpace { which: Which::C17, cases: stream_cases(tier, Which::C17), threads: tier.pick(4, 8) })];
+    let spaces: Vec<Box<dyn Space>> = vec![
+        Box::new(StreamSpace { which: Which::C17, cases: stream_cases(tier, Which::C17), threads: tier.pick(4, 8) }),
+        Box::new(Occupancy { which: Which::C17, max: tier.pick(40, 80) }),
+    ];
     CheckDef {
         prop: "C17",
         level: "model_checking",
